@@ -154,3 +154,17 @@ simple("C13", "model_checking",
         "libstdc++'s unsynchronised ctype<char>::narrow/widen cache (hit by std::regex) is suppressed: not ada's memory",
         "a waiter that exhausts the 1e9-iteration spin cap (initialising thread not scheduled for seconds) is outside the bound"],
        sched_stages)
+
+simple("C11", "model_checking",
+       "(a) 7 encode tables x 256 byte values against the Standard's set definitions; percent_encode / percent_encode_index / "
+       "append form on every byte at offsets 0..17 with tails 0,1,9 and on all 65,536 ordered byte pairs per set; (b) every "
+       "ASCII byte and every 2-byte UTF-8 sequence (all leads C2..DF x all continuations) + boundary 3/4-byte sequences through "
+       "set_username/password/pathname/search/hash/host/hostname on special, non-special and opaque URLs at 8 block-edge offsets, "
+       "through opaque path/host/userinfo/query/fragment parsing, and all 256 bytes through url_search_params::to_string; (c) "
+       "decode(encode(x,S)) = x for ALL byte strings of length <=2 (quick) / <=3 (thorough) per set, all strings <=6/7 over "
+       "{%,4,1,G,g,a,F,+,space,0xFF} for percent_decode and form_urlencoded_decode; states = distinct outputs, transitions = "
+       "evaluations (each compared with the model)",
+       ["oracle: the Standard's percent-encode sets written as set definitions (refurl::in_encode_set, reflist) and refurl setters"],
+       lambda tier: [{"name": "encode-enum", "driver": "drv_encode", "config": "rel", "sources": ["harness/drv_encode.cpp"] + REF_SRC,
+                      "flags": REF_FLAGS, "args": [], "kinds": ["encode"]}],
+       needs_models=True)
